@@ -143,6 +143,38 @@ def domain_tags(fmt, rate, services, removed=False, old16=False):
     return tags
 
 
+def fromsvc_flag(name):
+    try:
+        t = open(os.path.join(verif.LEAN, "ZvbiModel", "Generated", "RawdecFromSvc.lean")).read()
+    except OSError:
+        return False
+    return ("def %s : Bool := true" % name) in t
+
+
+def fromsvc_domain(fam, sv):
+    """F80 domain, from the op parameters only: two requested services of one line system use a field, and the one that
+    comes LATER in zvbi's table order starts (and ends) on an earlier line: the range update of
+    _vbi_sampling_par_from_services_log lowers `start` first and loses the old end.  Table order = SVC['row']."""
+    tab = dict(SVC)
+    # the two "all VBI lines" pseudo services of the table (last row of each line system)
+    tab[0x20000000] = dict(row=10, scan=625, l0=(6, 22), l1=(318, 335))
+    tab[0x40000000] = dict(row=17, scan=525, l0=(10, 21), l1=(272, 284))
+    if sv & 0x2:
+        sv |= 0x3       # the table has no row for Level 2.5 alone: bit 0x2 selects the row "Teletext System B, 625" (0x3)
+    ids = sorted((i for i in tab if i & sv == i), key=lambda i: tab[i]["row"])
+    for scan in (625, 525):
+        if fam and fam != (1 if scan == 625 else 2):
+            continue
+        sel = [i for i in ids if tab[i]["scan"] == scan]
+        for k in ("l0", "l1"):
+            for x in range(len(sel)):
+                for y in range(x + 1, len(sel)):
+                    a, b = tab[sel[x]][k], tab[sel[y]][k]
+                    if a and b and b[0] < a[0] and b[1] < a[1]:
+                        return True
+    return False
+
+
 IDS625 = [i for i, s in SVC.items() if s["scan"] == 625]
 IDS525 = [i for i, s in SVC.items() if s["scan"] == 525]
 
@@ -226,15 +258,18 @@ def parse_recs(tokens):
 class C04(verif.Spec):
     prop = "C04"
     comp = "rawdec"
-    lean_modules = ["ZvbiModel.Props.C04", "ZvbiModel.Props.C04Bits", "ZvbiModel.Props.C04Hist"]
+    lean_modules = ["ZvbiModel.Props.C04", "ZvbiModel.Props.C04Bits", "ZvbiModel.Props.C04Hist", "ZvbiModel.Props.C04Reach",
+                    "ZvbiModel.Props.C04FromSvc"]
     harness = "rawdec_harness"
     timeout_per_case = 6.0
     partial_note = ("proved: the discrete logic (pattern/job bookkeeping invariant over every add/remove/decode history, "
                     "decode_pattern incl. move-to-front, one record per line / right service / line numbers / blank / "
                     "nothing beyond count for every slicer behaviour, payload stage of all three slicers exact in all four "
                     "endian modes under the eye-open hypothesis, CRI search window exact, line/field/memory line of every row, "
-                    "services = union of pairwise disjoint job ids, <= 7 jobs, remove leaves no requested id - all histories of "
-                    "the repaired code; from every reachable armed pattern and over every history of decode calls: no line is "
+                    "services = union of pairwise disjoint job ids, <= 7 jobs, remove leaves no requested id, every row armed with "
+                    "pairwise distinct job numbers, add_job_to_pattern never out of space, add accepts exactly the rows check_services "
+                    "accepts, set_params assertion unreachable for every non-aborting configuration - all histories of "
+                    "the repaired code; from every reachable pattern and over every history of decode calls: no line is "
                     "ever skipped, the records of a frame are a function of that frame's image and do not depend on earlier "
                     "frames [hypotheses: slicing independent of the adaptive threshold, at most one job matches a line]; the "
                     "CRI search range of add_services covers every accepted window for every table row). NOT proved: that io-sim's floating point waveform satisfies eye-open for every "
@@ -244,27 +279,24 @@ class C04(verif.Spec):
                    "phase_shift double arithmetic = exact rational floor (C05)",
                    "threshold arithmetic stays inside 32 bits as analysed in NOTES/C04.md (validated by correspondence on "
                    "noise and saturated images)"]
-    open_statements = ["armed_reachable_full Fixes.all (every row of every reachable pattern keeps its jobs first and the marker "
-                       "in the last way): false on the released code (armed_counterexample); for the repaired code it needs "
-                       "add_accepts_all_full, not proved",
-                       "add_accepts_all_full (Props/C04Bits.lean: add_services never drops an accepted service - neither the "
-                       "MAX_JOBS break nor 'Out of decoder pattern space' is reachable with the real table): the MAX_JOBS half is "
-                       "proved (add_accepts_all_partial, job_ids_disjoint_at_most_7: at most 7 jobs); missing: positive entries "
-                       "of a row stay pairwise distinct over all histories.  NOTE 7 (not 6) jobs can share a line "
-                       "(corpus/C04/seven-jobs-one-line.ops)",
-                       "armed_after_every_history_full (Props/C04Hist.lean: every reachable pattern of the repaired code is armed - "
-                       "jobs first, marker in the last way -, the hypothesis of no_line_ever_skipped / "
-                       "decode_is_history_independent): proved for decode calls (armed_preserved_by_decodes, "
-                       "armed_after_every_history_partial) and checked by `decide` on concrete add/remove histories; in general "
-                       "it needs add_accepts_all_full (a failing add_job_to_pattern leaves compacted rows without marker)",
-                       "threshold independence: decode_is_history_independent assumes the slicers' verdict on a frame does not "
+    open_statements = ["threshold independence: decode_is_history_independent assumes the slicers' verdict on a frame does not "
                        "depend on bs->thresh left behind by earlier lines/frames (ThreshFree); for io-sim's nominal waveforms this "
                        "is sampled by the long-history generator, not proved",
-                       "ids_within_services_full as literally stated in Props/C04.lean (no hypothesis): proved with the explicit "
-                       "hypothesis that the history did not run into the set_params assertion (ids_within_services)",
+                       "ids_within_services_full as literally stated in Props/C04.lean quantifies over ALL sampling parameters: proved for "
+                       "every configuration in which C does not abort by design (CfgOK: pixel format known to set_params, <= 32767 samples "
+                       "per line, 32 bit rate - ids_within_services_every_history, set_params_assertion_unreachable); outside CfgOK the model's "
+                       "error state stands for a process abort (cfg_hypothesis_needed) and the literal statement is not claimed",
+                       "from_services_permits_all WITHOUT exception (every contributing table row passes the whole of permit_service on the "
+                       "returned parameters, every strictness): FALSE for Teletext D 625 at (unsigned) strict > 0 (F81, "
+                       "from_services_strict_length_counterexample); proved for the repaired range update for every other row of the real "
+                       "services and for all rows at strict 0 (from_services_permits_every_returned_service); for /repo's released range "
+                       "update the statement is false (F80, from_services_counterexample)",
                        "waveform_eye_open (io-sim's rendering satisfies the eye-open hypothesis for all rates/offsets/"
                        "formats/payloads): not formalisable here, sampled by the oracle; FALSE in the domains of F65-F70"]
     trusted_base = ["translate/gen_rawdec.py (recognises applied repairs; a wrong flag shows as model~code disagreement)",
+                    "translate/gen_rawdecfromsvc.py (cuts the double arithmetic statements of _vbi_sampling_par_from_services_log out of the "
+                    "source and evaluates them per table row with gcc; recognises the two shapes of the range update; a wrong reading shows "
+                    "in the fromsvc ops of the correspondence check)",
                     "translate/gen_rawdecflags.py (text of the blank-counter branch of decode_pattern and of the cri_end assignments "
                     "of add_services; an unrecognised form makes the proofs fail, a wrong reading shows in the long-history / "
                     "window cases of the correspondence check)",
@@ -938,6 +970,72 @@ class C04(verif.Spec):
                 cases.append([l.rstrip() for l in c])
         return self.settle(cases)
 
+    def gen_fromsvc(self, rng, n):
+        """vbi_sampling_par_from_services: every pair of services with every family argument (3 cases), then random
+        service sets (random subsets of the real service bits, sometimes the two VBI pseudo services, sometimes junk bits)"""
+        ids = [i for i in SVC if i != 0x3] + [0x2]
+        cases, cur = [], []
+        for a in ids:
+            for b in ids:
+                if a <= b:
+                    for fam in (0, 1, 2):
+                        cur.append("fromsvc %d 0x%x" % (fam, a | b))
+        for k in range(0, len(cur), 60):
+            cases.append(cur[k:k + 60])
+        bits = [0x2000, 0x1, 0x2, 0x4000, 0x8000, 0x4, 0x1000, 0x400, 0x8, 0x10, 0x10000, 0x100, 0x20000, 0x20, 0x40, 0x80]
+        for _ in range(n):
+            case = []
+            for _ in range(40):
+                sv = 0
+                pool = rng.choice([bits, bits[:10], bits[10:]])
+                for b in rng.sample(pool, rng.randint(1, min(6, len(pool)))):
+                    sv |= b
+                r = rng.random()
+                if r < 0.1:
+                    sv |= 0x20000000
+                elif r < 0.2:
+                    sv |= 0x40000000
+                elif r < 0.25:
+                    sv |= rng.getrandbits(32)
+                elif r < 0.28:
+                    sv = 0
+                case.append("fromsvc %d 0x%x" % (rng.choice([0, 0, 0, 1, 1, 2, 2, 3]), sv))
+            cases.append(case)
+        return cases
+
+    def gen_fromsvc_add(self, rng, n):
+        """the end-to-end use of from_services: compute parameters for a service set (first pass through the real code),
+        build a decoder with exactly these parameters and add the returned services with strict 0 / 1 / 2 - every returned
+        service must be accepted (it is the "subset of services covered by the calculated sampling parameters")"""
+        bits625 = [0x2000, 0x1, 0x3, 0x4000, 0x8000, 0x4, 0x1000, 0x400, 0x8, 0x10]
+        bits525 = [0x10000, 0x100, 0x20000, 0x20, 0x40, 0x80]
+        reqs = [(1, b) for b in bits625] + [(2, b) for b in bits525]
+        for _ in range(n):
+            fam = rng.choice([0, 1, 2])
+            pool = bits625 if fam == 1 else bits525 if fam == 2 else rng.choice([bits625, bits525])
+            sv = 0
+            for b in rng.sample(pool, rng.randint(1, min(5, len(pool)))):
+                sv |= b
+            reqs.append((fam, sv))
+        first = [["fromsvc %d 0x%x" % r] for r in reqs]
+        out = self.run_harness(first)
+        cases = []
+        for i, c in enumerate(first):
+            o = (out.get(i, [""]) or [""])[0].split()
+            if len(o) < 3 or o[0] != "ok" or o[1] == "0":
+                continue
+            try:
+                f = {k: int(self.field(o, k + "=")) for k in ("sc", "fmt", "rate", "bpl", "off", "s0", "c0", "s1", "c1", "il", "sy")}
+            except ValueError:
+                continue
+            case = [c[0]]
+            for strict in (0, 1, 2):
+                case.append("par %d %d %d %d %d %d %d %d %d %d %d %d" % (f["sc"], f["fmt"], f["rate"], f["bpl"], f["off"], f["s0"],
+                                                                          f["c0"], f["s1"], f["c1"], f["il"], f["sy"], rng.choice([2, 3])))
+                case.append("add 0x%s %d" % (o[1], strict))
+            cases.append(case)
+        return cases
+
     def gen_malformed(self, rng, n):
         cases = []
         bad = ["par", "par 625 1 13500000 720 132 7 17 320 17 0 1", "par 625 6 13500000 1440 132 7 17 320 17 0 1 3",
@@ -977,6 +1075,8 @@ class C04(verif.Spec):
         cases += self.gen_ties(rng, 24 if q else 200)
         cases += self.gen_windows(rng, 20 if q else 200)
         cases += self.gen_long(rng, 28 if q else 280)
+        cases += self.gen_fromsvc(rng, 25 if q else 400)
+        cases += self.gen_fromsvc_add(rng, 40 if q else 600)
         return cases
 
     # ------------------------------------------------------------------ classification / oracle
@@ -984,6 +1084,8 @@ class C04(verif.Spec):
         ops = {l.split()[0] for l in case if l.split()}
         if "slice" in ops:
             return "slice"
+        if "fromsvc" in ops:
+            return "from-services"
         if "decode" in ops:
             return "concrete-decode"
         if "frame" in ops:
@@ -1015,6 +1117,7 @@ class C04(verif.Spec):
 
     def oracle1(self, case, out):
         sp, services, ever, pending, removed = None, 0, 0, None, False
+        fs_last, fs_par = None, None
 
         def fail(msg, fmt=None, rate=None, sv=None, old16=False):
             tags = domain_tags(fmt if fmt is not None else (sp.fmt if sp else 1), rate if rate is not None else (sp.rate if sp else 0),
@@ -1039,11 +1142,24 @@ class C04(verif.Spec):
                     return "table constants changed: " + out[idx]
             elif op == "par":
                 sp, services, ever, pending, removed = parse_par(line), 0, 0, None, False
+                fs_par = fs_last if (fs_last and w[1:12] == fs_last[3]) else None
             elif op in ("add", "remove", "reset"):
                 try:
                     services = int(o[1], 16)
                 except (ValueError, IndexError):
                     return "unparsable " + op
+                if op == "add" and fs_par is not None and int(w[1], 0) == fs_par[2] and ever == 0:
+                    want = fs_par[2] & ~0x60000000
+                    if services != want:
+                        strict = int(w[2])
+                        tags = []
+                        if strict >= 1 and fromsvc_domain(fs_par[0], fs_par[1]) and not fromsvc_flag("fsEndFixed"):
+                            tags.append("from-services-range")
+                        if strict >= 1 and fs_par[2] & 0x8000:
+                            tags.append("from-services-strict-length")
+                        return ("parameters computed by from_services do not admit the returned services (returned 0x%x, "
+                                "add_services strict %d accepts 0x%x; request 0x%x)" % (fs_par[2], strict, services, fs_par[1])
+                                + (" {%s}" % ",".join(tags) if tags else ""))
                 ever |= services
                 if op == "remove":
                     removed = True
@@ -1057,6 +1173,15 @@ class C04(verif.Spec):
                     return fail("job for a service not in the returned set after %s (jobs 0x%x services 0x%x)" % (op, jm, services))
                 if services & ~jm:
                     return fail("returned service without a job after %s (jobs 0x%x services 0x%x)" % (op, jm, services))
+            elif op == "fromsvc":
+                w1 = self.oracle_fromsvc(w, o)
+                if w1:
+                    return w1
+                try:
+                    fs_last = (int(w[1]), int(w[2], 0), int(o[1], 16),
+                               [self.field(o, k + "=") for k in ("sc", "fmt", "rate", "bpl", "off", "s0", "c0", "s1", "c1", "il", "sy")])
+                except (ValueError, IndexError):
+                    fs_last = None
             elif op == "expect":
                 pending = parse_recs(w[1:])
             elif op in ("frame", "decode"):
@@ -1111,6 +1236,43 @@ class C04(verif.Spec):
                     f = int(w[2])
                     return fail("%s bit slicer: %s instead of the transmitted payload" % (
                         v, "no match" if o[1] == "fail" else "wrong payload"), f, int(w[3]), tx[0][0], old16=(w[1] == "2" and f >= 38))
+        return None
+
+    def oracle_fromsvc(self, w, o):
+        """vbi_sampling_par_from_services returns the "subset of services covered by the calculated sampling parameters":
+        every returned service must lie inside the returned scan line ranges and the returned horizontal window, the rate
+        must be at least the minimum of the property text, the services must belong to one line system."""
+        try:
+            fam, sv, rsv = int(w[1]), int(w[2], 0), int(o[1], 16)
+            f = {k: int(self.field(o, k + "=")) for k in ("sc", "fmt", "rate", "bpl", "off", "s0", "c0", "s1", "c1", "il", "sy", "max")}
+        except (ValueError, IndexError):
+            return "unparsable fromsvc"
+        tag = " {from-services-range}" if (fromsvc_domain(fam, sv) and not fromsvc_flag("fsEndFixed")) else ""
+        # ids are those of whole table rows: a request touching Teletext B 625 (0x1 / 0x2) is answered with the row ids 0x1, 0x3
+        if rsv & ~(sv | (0x3 if sv & 0x3 else 0)) & 0xFFFFFFFF:
+            return "from_services returns a service that was not requested (0x%x of 0x%x)" % (rsv, sv)
+        if rsv == 0:
+            return None
+        sp = Sp(f["sc"], f["fmt"], f["rate"], f["bpl"] // bpp_of(f["fmt"]) if f["fmt"] in BPP else 0, f["off"], f["s0"], f["c0"],
+                f["s1"], f["c1"], f["il"], f["sy"])
+        for sid in SVC:
+            if sid & rsv != sid:
+                continue
+            d = SVC[sid]
+            if d["scan"] != f["sc"]:
+                return "from_services returns service 0x%x of the other line system (scanning %d)" % (sid, f["sc"])
+            for k, st, ct in (("l0", f["s0"], f["c0"]), ("l1", f["s1"], f["c1"])):
+                if d[k] and not (ct > 0 and 0 < st <= d[k][0] and d[k][1] <= st + ct - 1):
+                    return ("from_services: returned service not covered by the returned scan lines (0x%x needs %d-%d, "
+                            "returned start %d count %d; request 0x%x)" % (sid, d[k][0], d[k][1], st, ct, sv)) + tag
+            if f["rate"] < d["minrate"] or not f["sy"] or f["il"]:
+                return "from_services: rate / field flags do not suit service 0x%x" % sid
+            # horizontally only the length is demanded (FRC + payload of the service fit the window): zvbi's table places the
+            # start of the window at the nominal start of the run-in, io-sim starts the run-in up to 0.6 us earlier - the
+            # first run-in bits are not needed by the CRI search
+            a_, b_ = sig_span(sid)
+            if sp.spl * 1e6 / sp.rate < (b_ - a_) - 0.7:
+                return "from_services: returned service 0x%x does not fit the returned horizontal window" % sid
         return None
 
     @staticmethod
